@@ -93,28 +93,28 @@ def packet_identity(rep, index):
 
 
 def width_tables(rep, index):
-    """TypeFactory's integer sizes = the widths EoWriter/EoReader use for the same type name."""
-    m, fn, cls = index.function("protocol_code_generator.type.type_factory.TypeFactory._create_type")
-    sizes = {}
-    for n in ast.walk(fn):
-        if isinstance(n, ast.If):
-            t = n.test
-            names = []
-            if isinstance(t, ast.Compare) and len(t.ops) == 1 and isinstance(t.left, ast.Name):
-                c = t.comparators[0]
-                if isinstance(t.ops[0], ast.Eq) and isinstance(c, ast.Constant):
-                    names = [c.value]
-                elif isinstance(t.ops[0], ast.In) and isinstance(c, (ast.List, ast.Tuple)):
-                    names = [e.value for e in c.elts if isinstance(e, ast.Constant)]
-            for st in n.body:
-                if isinstance(st, ast.Assign) and isinstance(st.value, ast.Call) and ast.unparse(st.value.func) == "IntegerType" and len(st.value.args) == 2 \
-                        and isinstance(st.value.args[1], ast.Constant):
-                    for nm in names:
-                        sizes[nm] = st.value.args[1].value
+    """The type factory's size of every integer type = the width EoWriter/EoReader use for the same type name: the real
+    TypeFactory is interpreted (get_type(name).fixed_size), not pattern-matched."""
+    from ..genabs.absint import Interp
+    from ..genabs.values import Chooser, Unsupported, World
+    from ..genabs.values import PyRaise as GPyRaise
     want = {"byte": 1, "char": 1, "short": 2, "three": 3, "int": 4}
-    rep.count("integer type table entries", len(sizes))
-    for k, v in want.items():
-        rep.ob("C02.T1 type-table-width", "TypeFactory._create_type %s" % k, sizes.get(k) == v,
-               "IntegerType(%r, %r); the wire width of %s is %d (EoWriter.add_%s / EoReader.get_%s, see C04/C09)" % (k, sizes.get(k), k, v, k, k),
-               loc=index.loc(m, fn))
+    it = Interp(index)
+    n = 0
+    try:
+        tf = it.load_module("protocol_code_generator.type.type_factory")
+        for k, v in want.items():
+            World.chooser = Chooser([])
+            World.trace = {}
+            factory = it.call(tf.env["TypeFactory"], [], {})
+            t = it.call(it.getattr(factory, "get_type"), [k], {})
+            size = it.getattr(t, "fixed_size")
+            if World.chooser.log:
+                raise AnalysisError("C02: TypeFactory.get_type(%r) forks on concrete input" % k)
+            n += 1
+            rep.ob("C02.T1 type-table-width", "TypeFactory.get_type(%r).fixed_size" % k, size == v,
+                   "fixed_size = %r; the wire width of %s is %d (EoWriter.add_%s / EoReader.get_%s, see C04/C09)" % (size, k, v, k, k))
+    except (Unsupported, GPyRaise, KeyError) as e:
+        raise AnalysisError("C02: the type factory cannot be interpreted for the integer types (%s: %s)" % (type(e).__name__, e))
+    rep.count("integer type table entries", n)
     rep.floor("integer type table entries", 5)
